@@ -118,6 +118,44 @@ T = {
     needs="unequal-weight pool with a fractional exponent; an operation (even a refused one) with power base exactly 2; then a process that never evaluated it (restart) executing a swap with base outside [0.5, 2)",
     caught_by="C19.replicas_agree in mode c19 (fourth replica executed by a fresh OS process per block)",
     history="MISSED at first (all replicas shared one process, hence the corrupted global); fresh-process replica and exact-half / whale swaps on the weighted pool added; caught since"),
+ "C01-2": dict(
+    change="x/amm/keeper/pool.go GetAccountedPoolSnapshotOrSet: accounted balances written in place into a slice that aliases the live pool's assets",
+    needs="an oracle pool whose accounted balance differs from its reserves (open perpetual position); a block boundary; a state-changing amm operation that is the first touch of the pool in the new block",
+    caught_by="C01.reserve_eq_held, C01.liquidity_eq_sum in hist mode", history="caught at first run"),
+ "C02-2": dict(
+    change="x/amm/keeper/apply_exit_pool_state_change.go: payout and SetPool both skipped when the exit coins are empty",
+    needs="a dust all-asset exit whose payout truncates to zero for every asset", caught_by="C02.shares_agree (stored history C02-dust-exit and hist mode)", history="caught at first run"),
+ "C03-2": dict(
+    change="x/amm/types/swap_out_amt_given_in.go: fast path paying the curve amount instead of oracle amount minus clamped slippage when the external liquidity ratio is 1",
+    needs="oracle pool without accounted pool, ratio exactly 1, a swap that is not the first pool-changing operation of its block (snapshot differs from reserves in the trader's favour), exact-in",
+    caught_by="C03.oracle_value in mode c03 (block snapshots that differ from the pool)", history="caught at first run"),
+ "C04-2": dict(
+    change="x/amm/keeper/keeper_swap_exact_amount_in.go: the minimum-out check counts the expected weight-recovery bonus, which UpdatePoolForSwap caps by the treasury balance",
+    needs="oracle pool beyond the weight-difference threshold, swap in the recovering direction, minimum between plain output and output + bonus, rebalance treasury holding less than the bonus",
+    caught_by="C04.exact_in_min_out in mode c04 (oracle price jumps: imbalance without a funded treasury; limits of quote + 1)",
+    history="MISSED at first (no imbalanced oracle pools in the request-level world); whale imbalance shocks and oracle price jumps added; caught since"),
+ "C05-2": dict(
+    change="x/amm/keeper/apply_exit_pool_state_change.go: AfterExitPool hooks skipped for liquidation exits",
+    needs="leveragelp liquidation on an oracle pool (the accounted pool is not refreshed), then a single-asset join/exit priced from the stale accounted balance before anything refreshes it",
+    caught_by="C05.pricing_base_is_true_balance in history mode (driver C05H)",
+    history="MISSED at first (C05 was checked at function level only); block-level clauses on real histories added (exit payout vs pro-rata value, stored accounted balance = true balance); caught since"),
+ "C06-2": dict(
+    change="x/stablestake/keeper/debt.go Borrow: GetDebt instead of UpdateInterestAndGetDebt (same site as C06-1)",
+    needs="consolidating re-open by a borrower with interest pending since an earlier block", caught_by="C06.vault_equation (stored history C06-reborrow-with-pending-interest and hist mode)", history="caught at first run"),
+ "C07-2": dict(
+    change="x/stablestake/keeper/msg_server_bond.go Bond: cached params.RedemptionRate (same site as C07-1)",
+    needs="interest booked after the epoch tick, then a Bond before the next one", caught_by="C07.bond_unbond, C07.others_unharmed, C07.rate_mono in mode c07", history="caught at first run"),
+ "C08-2": dict(
+    change="x/leveragelp/keeper/begin_blocker.go: pool record cached per page in the fallback sweep and passed by value",
+    needs="two positions of one pool closed by the begin-blocker sweep in the same block", caught_by="C08.pool_eq_sum in hist mode", history="caught at first run"),
+ "C09-2": dict(
+    change="x/perpetual/keeper/open_consolidate.go: CheckLowPoolHealthAndMinimumCustody skipped when msg.Leverage is zero (variant of C09-1)",
+    needs="as C09-1", caught_by="C09.custody_backed in scenario c09-saturated-pool-topups", history="caught at first run"),
+ "C10-2": dict(
+    change="x/perpetual/keeper/settle_funding_fee*.go: the funding checkpoint is advanced only at the end of FundingFeeDistribution, which returns early for a paying position",
+    needs="a pool with longs and shorts (non-zero funding rate), the victim on the paying side, at least two settlements of the same position: the second takes the whole period again",
+    caught_by="C10.only_accrued_taken (the same request repeated within one block; custody compared with one predicted settlement) and C10.third_party_close",
+    history="MISSED at first (custody of perpetual positions was not compared because settlements legitimately reduce it); repeated requests and the only-accrued clause added; caught since"),
 }
 
 root = os.path.join(os.path.dirname(os.path.dirname(os.path.abspath(__file__))), "seeded")
